@@ -117,7 +117,8 @@ def gen_params(rng, cls, shape, N, pid, faults):
                 p["initialize"] = {"$npint": p["initialize"], "dtype": "int64"}
         elif r < 0.75:
             p["initialize"] = "random"
-            p["random_state"] = rng.randrange(100)
+            if rng.random() < 0.65:
+                p["random_state"] = rng.randrange(100)  # else: the documented default (0)
         elif fam == "fps" and pid != "C06":
             k = rng.randint(1, min(N, 4))
             p["initialize"] = rng.sample(range(n_from), k)
@@ -171,11 +172,23 @@ def gen_c01(rng, idx, tier, faults):
         info = SEL[cls]
         fam = info["fam"]
         xs = gen_X(rng, D.KINDS, 2, 24, 2, 12)
+        # buffer reuse: the caller overwrites X in place and refits the same object on the
+        # same array object (integer-valued callers' arrays are converted by validation)
+        reuse = rng.random() < 0.12
+        if reuse and rng.random() < 0.4:
+            xs["kind"] = "lattice"
+            xs["cast"] = "int64"
         if rng.random() < 0.15:
-            xs["storage"] = rng.choice(["F", "view", "readonly"])
-        if rng.random() < 0.1:
+            xs["storage"] = rng.choice(["F", "view"] + ([] if reuse else ["readonly"]))
+        if "cast" not in xs and rng.random() < 0.1:
             # the caller's dtype: single precision, or integers for integer-valued data
             xs["cast"] = "int64" if xs["kind"] == "lattice" else "float32"
+        elif "cast" not in xs and fam in ("fps", "voronoi") and rng.random() < 0.15:
+            # (FPS family only: ARPACK does not terminate on the non-finite matrices the
+            # CUR/PCov variants would build from such data - nothing a property speaks about)
+            # finite but extreme magnitudes: squared norms overflow to inf (distances become
+            # inf/nan) or underflow to zero (every distance is exactly 0)
+            xs["scale_pow2"] = rng.choice([520, 600, 1000, -520, -600])
         xn, yn = f"X{o}", None
         heap[xn] = xs
         if info["y"] == "req" or rng.random() < 0.5:
@@ -223,6 +236,10 @@ def gen_c01(rng, idx, tier, faults):
                     cur = None
                 if rng.random() < 0.5:
                     curX, curY = (xo, yo) if curX == xn else (xn, yn)
+                if reuse and curX == xn:
+                    rec = {k: v for k, v in xs.items() if k != "storage"}
+                    rec["seed"] = _seed(rng)
+                    seq.append({"op": "MUTATE", "h": xn, "recipe": rec})
                 if faults and rng.random() < 0.3:
                     # the refit crashes at an arbitrary line and is repeated
                     seq.append({"op": "FIT", "obj": name, "X": curX, "y": curY, "warm": False, "env": crash_env()})
@@ -234,6 +251,14 @@ def gen_c01(rng, idx, tier, faults):
                     if isinstance(v, dict):
                         v = v.get("$npint", v.get("$npfloat"))
                     cur = resolve_n_to_select(v, n_from)
+                continue
+            if rng.random() < 0.06:
+                # a continuation that asks for no more than is already selected: it may be
+                # refused, but if it succeeds the selection must have the requested size
+                seq.append({"op": "SET", "obj": name, "params": {"n_to_select": n_form(rng, rng.randint(1, cur), n_from)}})
+                seq.append({"op": "FIT", "obj": name, "X": curX, "y": curY, "warm": True, "env": mk_env()})
+                seq.append({"op": "SET", "obj": name, "params": {"n_to_select": n_form(rng, cur, n_from)}})
+                seq.append({"op": "FIT", "obj": name, "X": curX, "y": curY, "warm": False, "env": mk_env()})
                 continue
             if cur >= n_from:
                 break
@@ -248,6 +273,11 @@ def gen_c01(rng, idx, tier, faults):
             else:
                 seq.append({"op": "FIT", "obj": name, "X": curX, "y": curY, "warm": True, "env": mk_env()})
             cur = new
+        if reuse and not any(o["op"] == "MUTATE" for o in seq):
+            rec = {k: v for k, v in xs.items() if k != "storage"}
+            rec["seed"] = _seed(rng)
+            seq.append({"op": "MUTATE", "h": xn, "recipe": rec})
+            seq.append({"op": "FIT", "obj": name, "X": xn, "y": yn, "warm": False, "env": mk_env()})
         if rng.random() < 0.3:
             seq.append(gen_read(rng, name, cls))
         plans.append(seq)
@@ -459,6 +489,17 @@ def gen_c08(rng, idx, tier, faults):
             q2["initialize"] = {"$prefix_of": name, "len": rng.randint(1, final)}
             seq.append({"op": "NEW", "obj": name2, "cls": cls, "params": q2, "final": final, "twin_from": name})
             seq.append({"op": "FIT", "obj": name2, "X": xn, "y": yn, "warm": False, "env": mk_env()})
+        if fam in ("fps", "pcovfps", "voronoi") and rng.random() < 0.1:
+            # the only fit so far failed (mistyped initialize) before anything was selected:
+            # the selector has never been fitted, so a warm start must still be rejected
+            name4 = f"f{o}"
+            q4 = {k: v for k, v in q.items() if not k.startswith("score_threshold")}
+            q4["n_to_select"] = final
+            q4["initialize"] = rng.choice(["randm", "first", n_from + 3, -n_from - 2])
+            seq.append({"op": "NEW", "obj": name4, "cls": cls, "params": q4, "final": final})
+            seq.append({"op": "FIT", "obj": name4, "X": xn, "y": yn, "warm": False, "env": None, "expect_fail": True})
+            seq.append({"op": "SET", "obj": name4, "params": {"initialize": rng.randrange(n_from)}})
+            seq.append({"op": "FIT", "obj": name4, "X": xn, "y": yn, "warm": True, "expect": "reject", "env": None})
         if rng.random() < 0.1:
             name3 = f"u{o}"
             seq.append({"op": "NEW", "obj": name3, "cls": cls, "params": {k: v for k, v in q.items() if not k.startswith("score_threshold")}, "final": final})
